@@ -12,7 +12,7 @@ def run(tier):
     os.makedirs(wd, exist_ok=True)
     focus = []   # reachable shapes come from the random histories with sleep / OTA prefixes; model runs are in C04/C07/C10
     chk = gwcheck.GwCheck(PID, tier, PROJ, focus=focus, steps=36, n_quick=50, n_thorough=800,
-                          gen_opts=lambda i: {"prefix": "mix", "snap_dir": wd, "snap_p": 0.12},
+                          gen_opts=lambda i: {"prefix": "mix", "snap_dir": wd, "snap_p": 0.12, "real_link": False, "surrogate": True},
                           nontrivial=lambda ev: ev["a"] == "Snapshot" and bool(ev["json"]["tree"]))
     chk.rep.cov["states"] = 0
     traces = chk.collect_traces()
